@@ -194,7 +194,36 @@ func (u *Unit) evalMulti(st *State, e ast.Expr, n int) []Value {
 
 func (u *Unit) funcValue(fn *types.Func) Value {
 	t := u.d.Const("func_"+fn.FullName(), SInt)
+	if u.funcConsts == nil {
+		u.funcConsts = map[string]*types.Func{}
+	}
+	u.funcConsts[t.S] = fn
 	return scalar(fn.Type(), t)
+}
+
+type funcLeaf struct {
+	cond Term
+	fn   *types.Func
+}
+
+// funcLeaves: the top-level functions a function value may be, with the conditions under which it is each
+// (`write := a; if c { write = b }` gives ite(c, b, a)); nil when any alternative is something else.
+func (u *Unit) funcLeaves(t Term, cond Term) []funcLeaf {
+	if fn, ok := u.funcConsts[t.S]; ok {
+		if fn.Type().(*types.Signature).Recv() != nil {
+			return nil
+		}
+		return []funcLeaf{{cond, fn}}
+	}
+	if c, a, b, ok := iteParts(t); ok {
+		la := u.funcLeaves(a, And(cond, c))
+		lb := u.funcLeaves(b, And(cond, Not(c)))
+		if la == nil || lb == nil {
+			return nil
+		}
+		return append(la, lb...)
+	}
+	return nil
 }
 
 func (u *Unit) closureValue(st *State, lit *ast.FuncLit) Value {
@@ -227,6 +256,27 @@ func (u *Unit) sentinelFacts(st *State, o *types.Var, v Value) {
 // varLV returns the lvalue of a variable (local, boxed, or package-level).
 func (u *Unit) varLV(st *State, o *types.Var) LV {
 	if o.Pkg() != nil && o.Parent() == o.Pkg().Scope() {
+		// a package-level variable of the repository that did not exist at baseline time (a lookup table that
+		// replaced a switch, ...): what it holds is not specified anywhere, the unit can not be decided
+		if fb := u.eng.funcsBase; fb != nil && u.eng.hasVarBaseline() {
+			if _, isRepo := u.eng.allRepoPkgs()[o.Pkg().Path()]; isRepo && !fb["var:"+globalKey(o)] {
+				root := u
+				for root.parent != nil {
+					root = root.parent
+				}
+				msg := "package variable " + globalKey(o)
+				dup := false
+				for _, h := range root.newHelpers {
+					dup = dup || h == msg
+				}
+				if !dup {
+					root.newHelpers = append(root.newHelpers, msg)
+					if root != u {
+						u.newHelpers = append(u.newHelpers, msg)
+					}
+				}
+			}
+		}
 		return LV{kind: lvGlobal, keyT: globalKey(o), T: o.Type()}
 	}
 	return LV{kind: lvVar, obj: o, T: o.Type()}
@@ -1040,6 +1090,13 @@ func (u *Unit) bvop(st *State, op token.Token, l, r Value, t types.Type) Value {
 }
 
 func (u *Unit) sconcat(st *State, a, b Term) Term {
+	// s + (c ? x : y) is (c ? s+x : s+y): keeps a suffix chosen up front comparable with one appended in a branch
+	if c, x, y, ok := iteParts(b); ok && b.Sort == SStr {
+		return Ite(c, u.sconcat(st, a, x), u.sconcat(st, a, y))
+	}
+	if c, x, y, ok := iteParts(a); ok && a.Sort == SStr {
+		return Ite(c, u.sconcat(st, x, b), u.sconcat(st, y, b))
+	}
 	f := u.d.Fun("sconcat", []Sort{SStr, SStr}, SStr)
 	r := App(f, SStr, a, b)
 	st.assume(Eq(u.slenOf(st, r), Add(u.slenOf(st, a), u.slenOf(st, b))))
